@@ -75,8 +75,13 @@ def evaluate(seed):
 
 def main():
     seeds = sys.argv[1:]
+    def safe(seed):
+        try:
+            return evaluate(seed)
+        except Exception as e:
+            return {'seed': os.path.abspath(seed), 'property': None, 'error': f"{type(e).__name__}: {e}"}
     with ThreadPoolExecutor(max_workers=6) as ex:
-        results = list(ex.map(evaluate, seeds))
+        results = list(ex.map(safe, seeds))
     os.makedirs(os.path.join(VERIF, 'seeded'), exist_ok=True)
     os.makedirs(os.path.join(VERIF, 'benign'), exist_ok=True)
     for r in results:
